@@ -570,7 +570,7 @@ pub fn stats_check(
 pub fn plan(thorough: bool) -> Vec<(bool, usize)> {
     // (full alphabet?, length)
     if thorough {
-        vec![(true, 1), (true, 2), (true, 3), (false, 4)]
+        vec![(true, 1), (true, 2), (true, 3), (true, 4)]
     } else {
         vec![(true, 1), (true, 2), (false, 3)]
     }
